@@ -276,6 +276,8 @@ UNIT = Unit(
                                 if mentions(reqs, k2) { assert(pools@.contains(k2)); let j = choose|j: int| 0 <= j < pools@.len() && pools@[j] == k2; } } }
                         assert(selected(s0.transactions@, reqs, withdraw_pred(s0)));
                         assert(wds_done(s0.pools@, c0, s0.height, reqs, fin, wl, wr, st.pools@, st.coins@.coins));
+                        assert(ids_new(c0, st.coins@.coins)) by { assert forall|id: CoinID| #[trigger] st.coins@.coins.contains_key(id) implies c0.contains_key(id) || tx_id(id) by {
+                            if !c0.contains_key(id) { assert(wd_new(reqs, fin, id)); let j = choose|j: int| 0 <= j < reqs.len() && fin.contains(swap_key(#[trigger] reqs[j])) && id == cid(reqs[j], 1); assert(id.txhash == spec_txhash(reqs[j])); } } }
                         assert forall|k2: PoolKey| #[trigger] st.pools@.contains_key(k2) implies
                             ((pool_live(st.pools@[k2]) && st.pools@[k2].liqs > 0) || (st.pools@[k2].lefts == 0 && st.pools@[k2].rights == 0 && st.pools@[k2].liqs == 0)) && (is_builtin_key(k2, t902) && pool_live(s0.pools@[k2]) ==> pool_live(st.pools@[k2])) by {
                                 assert(s0.pools@.contains_key(k2));
@@ -382,6 +384,7 @@ UNIT = Unit(
                         lemma_builtin_liqs(state); lemma_wd_env_mono(s0.transactions@, s0.pools@, s0.coins@.coins, state.pools@, state.coins@.coins, spec_tip(s0.network, s0.height, 180000)); }
                         let ghost s1 = state;"""),
                     Inject(("after_let", "state", 1), "proof { lemma_two_pools_min(state); lemma_builtin_liqs(state); lemma_wd_env_mono(s0.transactions@, s1.pools@, s1.coins@.coins, state.pools@, state.coins@.coins, spec_tip(s0.network, s0.height, 180000)); } let ghost s2 = state;"),
-                    Inject(("after_let", "state", 2), "proof { lemma_two_pools_min(state); lemma_builtin_liqs(state); lemma_wd_env_mono(s0.transactions@, s2.pools@, s2.coins@.coins, state.pools@, state.coins@.coins, spec_tip(s0.network, s0.height, 180000)); }"), Inject(("after_let", "state", 3), "proof { lemma_two_pools_min(state); }")]),
+                    Inject(("after_let", "state", 3), "proof { lemma_two_pools_min(state); assert(ids_new(s0.coins@.coins, state.coins@.coins)); }"),
+                    Inject(("after_let", "state", 2), "let ghost s3 = state; proof { lemma_two_pools_min(state); lemma_builtin_liqs(state); lemma_wd_env_mono(s0.transactions@, s2.pools@, s2.coins@.coins, state.pools@, state.coins@.coins, spec_tip(s0.network, s0.height, 180000)); }"), Inject(("after_let", "state", 3), "proof { lemma_two_pools_min(state); }")]),
     ],
 )
